@@ -164,7 +164,7 @@ struct Call
 struct Obs
 {
 	double result = 0;
-	uint64_t n	  = 0, outside = 0, short_vec = 0;
+	uint64_t n	  = 0, outside = 0, short_vec = 0, region_modified = 0;
 	uint64_t trace = 1469598103934665603ULL;   // FNV over the bits of every coordinate, in order
 	std::vector<double> worst;
 };
@@ -172,9 +172,12 @@ static Obs run_call(const Call& C)
 {
 	Obs o;
 	std::vector<double> reg = C.R.flat();
+	const std::vector<double> reg0 = reg;	// the region as given; `reg` is the vector handed to the library by non-const reference
 	int dim = C.R.dim;
 	std::function<double(std::vector<double>&, const double)> f = [&](std::vector<double>& x, const double) {
 		o.n++;
+		if(reg != reg0)
+			o.region_modified++;	// an integrand may refer to the limits it was called with: they must read the same while it runs
 		if((int) x.size() < dim)
 		{
 			o.short_vec++;
@@ -183,7 +186,7 @@ static Obs run_call(const Call& C)
 		bool in = true;
 		for(int i = 0; i < dim; i++)
 		{
-			if(!(x[i] >= reg[i] && x[i] <= reg[i + dim]))
+			if(!(x[i] >= reg0[i] && x[i] <= reg0[i + dim]))
 				in = false;
 			o.trace = (o.trace ^ bits(x[i])) * 1099511628211ULL;
 		}
@@ -197,6 +200,8 @@ static Obs run_call(const Call& C)
 	set_seed(C.seed);
 	StreamCapture cap;
 	o.result = Integrate_MC(f, reg, C.ncall, std::string(MC[C.method]));
+	if(reg != reg0)
+		o.region_modified++;
 	return o;
 }
 static int gen_ncall(Rng& rng)
@@ -239,6 +244,7 @@ static void judge_inside(const Call& C, const Obs& o)
 	require("every-sample-inside-the-region", o.outside == 0, [&] { return J().i("samples", (long long) o.n).i("outside", (long long) o.outside).vec("first_outside_point", o.worst); });
 	require("argument-vector-has-the-region-dimension", o.short_vec == 0, [&] { return J().i("short_vectors", (long long) o.short_vec); });
 	require("integrand-was-sampled", o.n > 0, [&] { return J().i("samples", (long long) o.n); });
+	require("region-argument-reads-the-same-during-and-after-the-call", o.region_modified == 0, [&] { return J().i("evaluations_that_saw_other_limits", (long long) o.region_modified); });
 	(void) C;
 }
 
